@@ -1,0 +1,48 @@
+//go:build verif
+
+package engine
+
+import (
+	"bufio"
+	"bytes"
+
+	"github.com/openGemini/openGemini/lib/errno"
+	"github.com/openGemini/openGemini/lib/logger"
+)
+
+// VerifWalRecord is one record the WAL reader handed to its callback.
+type VerifWalRecord struct {
+	Type    byte
+	Payload []byte // the decompressed record body
+	Rows    int    // number of rows unmarshalled (line-protocol records)
+}
+
+// VerifReplayWalBytes runs the record loop of replayWalFile (replayPhysicRecord until it
+// reports io.EOF) over data instead of a file. The pooled record buffer the reader starts
+// with holds stale (len == cap == len(stale)), as it would after earlier use.
+func VerifReplayWalBytes(data, stale []byte) []VerifWalRecord {
+	l := &WAL{log: logger.NewLogger(errno.ModuleWal)}
+	fr := bufio.NewReaderSize(bytes.NewReader(data), 64*1024)
+	buf := make([]byte, len(stale))
+	copy(buf, stale)
+	var out []VerifWalRecord
+	for i := 0; i <= len(data); i++ {
+		var err error
+		buf, err = l.replayPhysicRecord(fr, "verif", buf, func(wr *walRecord) error {
+			rec := VerifWalRecord{Type: byte(wr.writeWalType)}
+			if wr.rowsObjs != nil {
+				rec.Payload = append([]byte(nil), wr.rowsObjs.rowsDataBuff...)
+				rec.Rows = len(wr.rowsObjs.rows)
+				putWalRowsObjects(wr.rowsObjs)
+			} else {
+				rec.Payload = append([]byte(nil), wr.binary...)
+			}
+			out = append(out, rec)
+			return nil
+		})
+		if err != nil {
+			break
+		}
+	}
+	return out
+}
